@@ -243,6 +243,37 @@ func (d *ValGrid) Cases(tier string) []GridCase {
 	for _, s := range []string{"::", "::1", "2a00::", "2a00:1450:4001:81b::200e", "2a00:1450:4001:81b:0:0:0:200e", "2a00:1450:4001:081b::200e", ":2a00::1", "2a00::1:", "2a00", "2a00:1", "1:2:3:4:5:6:7:8", "2a00:2:3:4:5:6:7:8", "2a00:2:3:4:5:6:7:8:9", "2a00:2:3:4:5:6:7::", "2a00::2:3:4:5:6:7", "2a00:::1", "::2a00:1", "2a00::1::", "2a00:0000:0000:0000:0000:0000:0000:0001", "2a00:0000:0000:0000:0000:0000:0000:00001", " 2a00::1", "2a00::1 ", "[2a00::1]", "2a00::1/64"} {
 		add("AAAA", s)
 	}
+	// every boundary / malformed group at every group position of a full and of a compressed address, every
+	// boundary / malformed octet at every octet position
+	{
+		full := []string{"2a00", "1", "2", "3", "4", "5", "6", "7"}
+		for pos := range full {
+			for _, g := range grp {
+				f := append([]string{}, full...)
+				f[pos] = g
+				add("AAAA", strings.Join(f, ":"))
+			}
+		}
+		comp := []string{"2a00", "", "5", "6", "7"} // 2a00::5:6:7
+		for pos := range comp {
+			if comp[pos] == "" {
+				continue
+			}
+			for _, g := range grp {
+				f := append([]string{}, comp...)
+				f[pos] = g
+				add("AAAA", strings.Join(f, ":"))
+			}
+		}
+		v4 := []string{"8", "8", "8", "8"}
+		for pos := range v4 {
+			for _, o := range oct {
+				f := append([]string{}, v4...)
+				f[pos] = o
+				add("A", strings.Join(f, "."))
+			}
+		}
+	}
 	// every placement of '::' : k explicit groups (1..8), the gap in every position 0..k, also with a leading or a
 	// trailing group of zeros next to it
 	for k := 1; k <= 8; k++ {
